@@ -444,8 +444,13 @@ Section READING.
   Definition window (range T : Z) (l : list sample) : list sample :=
     filter (fun s => (T - range <=? fst s)%Z && (fst s <=? T)%Z) l.
 
-  (* the rows answered to labelsGetter's request *)
+  (* the rows answered to labelsGetter's request: metric-typed rows only (type IN (2,0)) since the fix of
+     prom-labels-fetch-untyped; fetch_rows_untyped is the reading of the statement before it *)
+  Definition metric_row (s : tsrow) : bool := (t_type s =? 2)%Z || (t_type s =? 0)%Z.
   Definition fetch_rows (day_from day_to : Z) (fps : list N) (series : list tsrow) : list fetch_row :=
+    map (fun s => (t_fp s, t_labels s))
+        (filter (fun s => (day_from <=? t_date s)%Z && (t_date s <=? day_to)%Z && existsb (N.eqb (t_fp s)) fps && metric_row s) series).
+  Definition fetch_rows_untyped (day_from day_to : Z) (fps : list N) (series : list tsrow) : list fetch_row :=
     map (fun s => (t_fp s, t_labels s))
         (filter (fun s => (day_from <=? t_date s)%Z && (t_date s <=? day_to)%Z && existsb (N.eqb (t_fp s)) fps) series).
 End READING.
